@@ -138,8 +138,30 @@ class Program:
                         E[p].add(k["closure"])
                     if k.get("static"):
                         E[p].add(k["static"])
-        # closures/coroutines nested in a body that is reachable: coroutine bodies of async fns are
-        # created by the fn's aggregate; nothing more to do.
+        # calls into generic code of dependencies (std, itertools, sauron...) call back into the trait
+        # impls of the workspace types they are instantiated with (Ord::cmp from sort, From::from
+        # from Into::into, Display::fmt from to_string, ...): over-approximate by an edge to every
+        # trait-impl method of every workspace ADT named in the callee's generic arguments.
+        trait_impls = defaultdict(set)
+        for p, b in self.bodies.items():
+            if b.get("impl_trait") and b.get("impl_self"):
+                head = b["impl_self"].split("<")[0].lstrip("&").strip()
+                trait_impls[head].add(p)
+        ws = set(self.crates)
+        path_re = re.compile(r"[A-Za-z_][A-Za-z0-9_]*(?:::[A-Za-z_][A-Za-z0-9_]*)+")
+        for p, b in self.bodies.items():
+            for blk in b["blocks"]:
+                t = blk["term"]
+                if t["k"] not in ("call", "tailcall"):
+                    continue
+                c = t["callee"]
+                tgt = c.get("resolved") or c.get("path")
+                if tgt in self.bodies:
+                    continue
+                for g in (c.get("generics") or []) + [c.get("impl_self") or ""]:
+                    for ty in path_re.findall(g):
+                        if ty in trait_impls:
+                            E[p] |= trait_impls[ty]
         self._edges = E
         return E
 
